@@ -118,6 +118,35 @@ func ruleErrorsBeforeData(fnNames ...string) ruleFn {
 								failOK = true
 							}
 						}
+						// the test may be folded into a named condition (`hasData := len(errs) == 0 &&
+						// data != nil; if !hasData { return resp }`): the use is guarded by a branch on
+						// a boolean that can only be true after the success side of the test was taken
+						if !guarded && len(t.ok.Preds) == 1 {
+							for _, i2 := range allInstrs(fn) {
+								iff, ok := i2.(*ssa.If)
+								if !ok {
+									continue
+								}
+								cond, side := iff.Cond, iff.Block().Succs[0]
+								if u, ok := cond.(*ssa.UnOp); ok && u.Op == token.NOT {
+									cond, side = u.X, iff.Block().Succs[1]
+								}
+								if len(side.Preds) != 1 || !(side == rd.ins.Block() || side.Dominates(rd.ins.Block())) {
+									continue
+								}
+								if trueOnlyAfter(cond, t.ok, 0) {
+									guarded = true
+									// the other side of this branch is where a failing response goes
+									other := iff.Block().Succs[0]
+									if other == side {
+										other = iff.Block().Succs[1]
+									}
+									if handsOnResponse(other, rd.base) {
+										failOK = true
+									}
+								}
+							}
+						}
 					}
 				}
 				site := r.P.pos(rd.ins.Pos())
@@ -573,4 +602,98 @@ func ruleAnswerDecoder(r *Run) {
 			"requests."+tn+" defines its own UnmarshalJSON: what counts as a well-formed downstream answer is now decided by that method — a bare object or an error page that happens to be JSON can be taken for an answer without data and without errors")
 	}
 	r.AtLeast(rule, "answer types", n, 2)
+}
+
+// trueOnlyAfter: the boolean v can be true only if control has passed through block ok (the
+// success side of a test): v is computed behind ok, or is a phi each of whose edges is the
+// constant false, comes from behind ok, or is again such a value.
+func trueOnlyAfter(v ssa.Value, ok *ssa.BasicBlock, depth int) bool {
+	if depth > 6 {
+		return false
+	}
+	switch x := v.(type) {
+	case *ssa.Const:
+		return x.Value != nil && x.Value.ExactString() == "false"
+	case *ssa.Phi:
+		for i, e := range x.Edges {
+			p := x.Block().Preds[i]
+			if c, isC := e.(*ssa.Const); isC && c.Value != nil && c.Value.ExactString() == "false" {
+				continue
+			}
+			if p == ok || ok.Dominates(p) || blockOnlyAfter(p, ok, depth+1) {
+				continue
+			}
+			if !trueOnlyAfter(e, ok, depth+1) {
+				return false
+			}
+		}
+		return true
+	case ssa.Instruction:
+		b := x.Block()
+		return b == ok || ok.Dominates(b) || blockOnlyAfter(b, ok, depth+1)
+	}
+	return false
+}
+
+// blockOnlyAfter: block b (or one of its dominators) is entered only on the side of a branch
+// whose condition can be true only after control passed through ok.
+func blockOnlyAfter(b, ok *ssa.BasicBlock, depth int) bool {
+	if depth > 6 {
+		return false
+	}
+	for d := b; d != nil; d = d.Idom() {
+		if d == ok {
+			return true
+		}
+		if len(d.Preds) != 1 {
+			continue
+		}
+		p := d.Preds[0]
+		if len(p.Instrs) == 0 {
+			continue
+		}
+		iff, isIf := p.Instrs[len(p.Instrs)-1].(*ssa.If)
+		if !isIf {
+			continue
+		}
+		cond, side := iff.Cond, p.Succs[0]
+		if u, isNot := cond.(*ssa.UnOp); isNot && u.Op == token.NOT {
+			cond, side = u.X, p.Succs[1]
+		}
+		if side == d && trueOnlyAfter(cond, ok, depth+1) {
+			return true
+		}
+	}
+	return false
+}
+
+// handsOnResponse: every return reachable from block b without leaving through a call that
+// consumes the response returns the response itself (base) — the failing response is passed
+// through as it is, errors included.
+func handsOnResponse(b *ssa.BasicBlock, base ssa.Value) bool {
+	seen := map[*ssa.BasicBlock]bool{}
+	var walk func(b *ssa.BasicBlock) bool
+	walk = func(b *ssa.BasicBlock) bool {
+		if seen[b] {
+			return true
+		}
+		seen[b] = true
+		for _, ins := range b.Instrs {
+			if ret, ok := ins.(*ssa.Return); ok {
+				for _, res := range ret.Results {
+					if sameBase(unwrap(res), base) || sameBase(res, base) {
+						return true
+					}
+				}
+				return false
+			}
+		}
+		for _, s := range b.Succs {
+			if !walk(s) {
+				return false
+			}
+		}
+		return len(b.Succs) > 0
+	}
+	return walk(b)
 }
